@@ -87,3 +87,13 @@ Example restart_with_obsolete_files :
   nth 10 (run repaired init acts) RFault = RRestart [3; 2; 1] (Some (MkSnap 3 [(1, 3, 3)] [9])) /\
   nth 11 (run repaired init acts) RFault = RCreate false 4.
 Proof. vm_compute. repeat split. Qed.
+(* a start from a savepoint is an explicit rewind: the store resumes from the savepoint, ids continue above the
+   savepoint's id (ids of the abandoned timeline are issued again, by design of "the savepoint overrides the
+   local checkpoints"), and the monitor accepts exactly that *)
+Example start_from_savepoint :
+  let acts := [ASavepoint [1] [1]; AAckOp 1 1 1; AAckSr 1 1 [7]; ACreate [1] [1]; AAckOp 2 1 2; AAckSr 2 1 [8];
+               ARestartFrom 1; ACreate [1] [1]; AAbort; AAckOp 2 1 5] in
+  nth 6 (run repaired init acts) RFault = RRestart [2] (Some (MkSnap 1 [(1, 1, 1)] [7])) /\
+  nth 7 (run repaired init acts) RFault = RCreate false 2 /\
+  nth 9 (run repaired init acts) RFault = RAck true None.
+Proof. vm_compute. repeat split. Qed.
